@@ -321,7 +321,7 @@ def gen_model(rng: core.Rng, idx: int) -> Dict[str, Any]:
     """A random class model inside the documented grammar: 2..5 dataclasses, single inheritance up to depth 3, per class an
     int column plus 0..2 further scalar fields, 0..2 Optional single references and 0..2 List collections to any class
     of the model (own class and own hierarchy included for single references).  Excluded (C06's known generator defects):
-    List of the own class (C06-a), models without a builtin column (C06-b), x / x_id name pairs, reserved names."""
+    models without a builtin column (C06-b), x / x_id name pairs, reserved names.  (List of the own class is included since c757abc.)"""
     # every third model: names[0] is ALTERNATIVELY MAPPED (a generated AlternativeMapping with a renamed column), names[1] derives
     # from it (a DAO below an alternatively mapped DAO) and refers to names[2], which refers back: a cycle through the subclass
     altm = idx % 3 == 1
@@ -366,7 +366,9 @@ def gen_model(rng: core.Rng, idx: int) -> Dict[str, Any]:
                 required.append(f"r{i}_{j}")          # annotated T (not Optional[T]), default None -- as the dataset's Backreference.reference
         for j in range(rng.randint(0, 2)):
             tg = [m for m in names if m != n]
-            fl.append((f"l{i}_{j}", "many", rng.choice(tg)))
+            # a collection of the class's OWN type (List[Self]) generates since repo commit c757abc (source_/target_ association columns)
+            own_typed = not (altm and i == 0) and rng.chance(0.3)
+            fl.append((f"l{i}_{j}", "many", n if own_typed else rng.choice(tg)))
             if not (altm and i == 0) and rng.chance(0.25):
                 tuples.append(f"l{i}_{j}")             # declared Tuple[T, ...]
         if not (altm and i == 0):
